@@ -441,6 +441,15 @@ func ruleWriteBits(c *Ctx, id string) {
 		R.Fail(id, "alloctxn.(*AllocTxn).PreCommit|bit writers", P.Pos(V.PreCommit.Pos()), "PreCommit writes the bitmaps through functions that OverWrite one bit per number", "no such call found")
 		return
 	}
+	// the polarity each list is written with (a writer that always sets must not be handed a free list)
+	wantPol := map[string]bool{"allocInums": true, "allocBnums": true, "freeInums": false, "freeBnums": false}
+	for _, w := range ws {
+		want, isList := wantPol[w.list]
+		if w.typ != V.AllocTxn || !isList {
+			continue
+		}
+		R.Check(w.polOK && w.pol == want, id, "alloctxn.(*AllocTxn).PreCommit|bits of "+w.list, P.Pos(w.call.Pos()), fmt.Sprintf("the numbers of %s are written as %s bits", w.list, map[bool]string{true: "set", false: "cleared"}[want]), "polarity of the writer agrees with the list", fmt.Sprintf("written through %s with polarity set=%v (decided=%v): allocated numbers are written as free, or freed numbers stay allocated on disk", FuncName(w.info.fn), w.pol, w.polOK))
+	}
 	for _, w := range ws {
 		top := w.info
 		if done[top.fn] {
